@@ -84,6 +84,7 @@ type stmt struct {
 }
 
 type program struct {
+	rawDiv   *expr // "rawdiv" flavour: the (division-free) divisor of the returned quotient/remainder
 	signed   bool
 	bits     int
 	bbits    int // width of argument b (cast to the main type at use)
@@ -150,6 +151,17 @@ func (p *program) source(noDiv bool) string {
 	}
 	sb.WriteString("\n}\n")
 	return sb.String()
+}
+
+// probeSource: the same statements, returning the raw divisor.
+func (p *program) probeSource() string {
+	if p.rawDiv == nil {
+		return ""
+	}
+	q := *p
+	q.rets = []*expr{p.rawDiv}
+	q.retTypes = []string{p.typ()}
+	return q.source(false)
 }
 
 func (p *program) usesDiv() bool {
@@ -268,7 +280,12 @@ func (g *gen) value(depth int) *expr {
 	case k < 13 && g.allowD:
 		op := []string{"/", "%"}[g.r.Intn(2)]
 		g.p.feats[op] = true
-		return &expr{op: op, l: g.value(depth - 1), r: g.value(depth - 1)}
+		// the divisor is made non-zero (d | 1): a/0 has no defined meaning in
+		// MPCL and the two targets' dividers return different values for it;
+		// raw divisors are exercised by the dedicated "rawdiv" flavour, which
+		// comes with a probe program that exposes the divisor
+		d := &expr{op: "|", l: g.value(depth - 1), r: &expr{op: "cast", leaf: g.p.typ(), l: leaf("1")}}
+		return &expr{op: op, l: g.value(depth - 1), r: d}
 	case k < 15:
 		op := []string{"<<", ">>"}[g.r.Intn(2)]
 		g.p.feats[op] = true
@@ -431,8 +448,27 @@ func genProgram(r *hxlib.Rng, flavour int) *program {
 	if flavour%6 == 3 {
 		nst = 1 + r.Intn(3)
 	}
+	raw := flavour%12 == 8
+	if raw {
+		// raw division: division-free statements, then a / d and a % d of one
+		// division-free divisor d (which may be zero)
+		g.allowD = false
+	}
 	p.stmts = g.block(nst, 0, true)
 	nret := 1 + r.Intn(2)
+	if raw {
+		p.rawDiv = g.value(1)
+		if p.rawDiv.constOnly() {
+			p.rawDiv = leaf("b")
+			if p.bbits != p.bits {
+				p.rawDiv = &expr{op: "cast", leaf: p.typ(), l: leaf("b")}
+			}
+		}
+		p.feats["rawdiv"] = true
+		p.rets = []*expr{{op: "/", l: g.value(1), r: p.rawDiv}, {op: "%", l: g.value(1), r: p.rawDiv}}
+		p.retTypes = []string{p.typ(), p.typ()}
+		nret = 0
+	}
 	for i := 0; i < nret; i++ {
 		if r.Intn(4) == 0 {
 			p.rets = append(p.rets, g.cond(1))
